@@ -127,29 +127,24 @@ Proof. exact chain_cap_lemma. Qed.
 Print Assumptions chain_cap.
 
 (* ---- classify: for all behaviours of the inner layers and of the byte source ---- *)
+(* the error that ends io.ReadAll is io.EOF itself, or malformed, or an error the byte source
+   itself returned (other than io.EOF itself); likewise at construction *)
 Theorem classify :
   (forall cs e, read_all None cs = Some e ->
-     (is_eof e = true \/ is_mal e = true) \/ source_failed_with (map fst cs) e) /\
+     (eof_ident e = true \/ is_mal e = true) \/ source_failed_with (map fst cs) e) /\
   (forall evs e x, construct evs e = Some x ->
-     is_mal x = true \/ (In (Some x) evs /\ is_eof x = false)).
+     is_mal x = true \/ (In (Some x) evs /\ eof_ident x = false)).
 Proof. exact classify_lemma. Qed.
 Print Assumptions classify.
 
-Definition classify_strict : Prop :=
-  forall cs e, read_all None cs = Some e ->
-  (eof_ident e = true \/ is_mal e = true) \/ source_failed_with (map fst cs) e.
-Theorem classify_strict_refuted :
+(* the wrapper as it was before commit c59f855 (errors.Is(err, io.EOF) instead of err == io.EOF)
+   let an inner error that wraps io.EOF through unclassified; [content_read_errors_is] is not
+   the current code *)
+Theorem classify_before_c59f855_refuted :
   exists inner, gerr_wf inner /\
-  exists e, read_all None [([], Some inner)] = Some e /\ ~ (eof_ident e = true \/ is_mal e = true).
-Proof. exact strict_refuted. Qed.
-Print Assumptions classify_strict_refuted.
-
-Theorem classify_strict_guarded :
-  forall cs sticky e, Forall (fun c => eof_plain (snd c)) cs ->
-  read_all sticky cs = Some e ->
-  (eof_ident e = true \/ is_mal e = true) \/ sticky = Some e \/ source_failed_with (map fst cs) e.
-Proof. exact read_all_strict. Qed.
-Print Assumptions classify_strict_guarded.
+  exists e, content_read_errors_is (Some inner) = Some e /\ ~ (eof_ident e = true \/ is_mal e = true).
+Proof. exact errors_is_variant_leaks. Qed.
+Print Assumptions classify_before_c59f855_refuted.
 
 (* ---- the budget discipline: charge before allocate, and the charge covers the allocation ---- *)
 
@@ -260,8 +255,6 @@ Example ex_chain : get_filters (FArr [EName FAHx; EName FCrypt]) PfNone = Err Ma
                    /\ get_filters (FArr [EName FAHx]) (PfArr [PNotDict]) = Err Malformed
                    /\ get_filters (FOne FAHx) PfBad = Err Malformed.
 Proof. vm_compute. auto. Qed.
-Example ex_eof_plain : eof_plain (Some (GE true true false 0)) /\ eof_plain (Some (GE false false false 9)).
-Proof. split; cbn; intro H; [reflexivity | discriminate H]. Qed.
 Example ex_source_error_surfaces :
   read_all None [([Some (GE false false false 5)], Some (GE false false false 6))] = Some (GE false false false 5).
 Proof. reflexivity. Qed.
